@@ -5,6 +5,8 @@ import (
 	"fmt"
 	"strings"
 	"testing"
+	"verif/harness/internal/gen"
+	"verif/harness/internal/spec"
 
 	"pgregory.net/rapid"
 
@@ -65,9 +67,15 @@ func drawC11(t *rapid.T) c11Case {
 	}
 	if rapid.IntRange(0, 3).Draw(t, "withOwn") == 0 {
 		c.Locked, c.Strace = true, false
-		c.Own = []string{"prior-no-nnp", "prior-nnp", "prctl-denied", "seccomp-enosys", "strict-probe-denied"}[rapid.IntRange(0, 4).Draw(t, "own")]
+		c.Own = []string{"prior-no-nnp", "prior-nnp", "prctl-denied", "seccomp-enosys", "strict-probe-denied", "seccomp-einval-log", "seccomp-einval-log"}[rapid.IntRange(0, 6).Draw(t, "own")]
 		if c.Own != "prior-nnp" {
 			c.Uid = 0
+		}
+		if c.Own == "seccomp-einval-log" {
+			// an ordinary goroutine in a busy process; the kernel (here: an enclosing filter) refuses the log flag
+			c.Locked, c.Prior = false, 0
+			c.Flag |= 2
+			c.GOMAXPROCS, c.Spinners = 4, 8
 		}
 	}
 	if !c.Locked && c.NNP && c.Own == "" && rapid.IntRange(0, 2).Draw(t, "preNNP") == 0 {
@@ -105,9 +113,10 @@ func checkC11(raw json.RawMessage) (ev.Result, error) {
 		job.Steps = append(job.Steps, kjob.Step{Op: "load", Thread: 1 + i, Filter: &kjob.FilterSpec{Policy: pp, NNP: true, Flag: 0, HostArch: true}})
 	}
 	stOwn := len(job.Steps)
-	if c.Own != "" && !c.Locked {
+	if c.Own != "" && !c.Locked && c.Own != "seccomp-einval-log" {
 		return ev.Result{}, ev.Inconclusivef("own-thread history needs a locked caller")
 	}
+	loadPolicy := c10Policy()
 	switch c.Own {
 	case "prior-no-nnp", "prior-nnp":
 		pp := c10Policy()
@@ -123,6 +132,15 @@ func checkC11(raw json.RawMessage) (ev.Result, error) {
 		// as root and without touching the bit: on the calling thread seccomp(2) answers ENOSYS (old kernel, container
 		// profile). Nothing can be installed through it; the bit must not be set unless requested.
 		job.Steps = append(job.Steps, kjob.Step{Op: "outer-enosys-thread-nonnp", Thread: 0})
+	case "seccomp-einval-log":
+		// as root and without touching the bit: on every thread seccomp(2) answers EINVAL to the log flag (a kernel
+		// before 4.14). Whatever LoadFilter does about that - fail, or try again differently - every attempt to install
+		// happens on a thread that carries the requested bit. The caller is an ordinary goroutine of a process whose other
+		// goroutines keep stopping the world, and the policy is a long one, so a goroutine that is not pinned for the
+		// whole call does not stay on its thread.
+		job.Steps = append(job.Steps, kjob.Step{Op: "outer-einval-log-nonnp"})
+		job.Steps = append(job.Steps, kjob.Step{Op: "churn", N: 2})
+		loadPolicy = c11LongPolicy()
 	}
 	stControl := len(job.Steps)
 	job.Steps = append(job.Steps, kjob.Step{Op: "control", Sched: &sched})
@@ -130,7 +148,7 @@ func checkC11(raw json.RawMessage) (ev.Result, error) {
 	job.Steps = append(job.Steps, kjob.Step{Op: "allstatus"})
 	stLoad := len(job.Steps)
 	job.Steps = append(job.Steps, kjob.Step{Op: "load", Thread: thread, Sched: &sched,
-		Filter: &kjob.FilterSpec{Policy: c10Policy(), NNP: c.NNP, Flag: c.Flag, HostArch: true, PreNNP: c.PreNNP && c.NNP && !c.Locked}})
+		Filter: &kjob.FilterSpec{Policy: loadPolicy, NNP: c.NNP, Flag: c.Flag, HostArch: true, PreNNP: c.PreNNP && c.NNP && !c.Locked}})
 	job.Steps = append(job.Steps, kjob.Step{Op: "stop-spinners"})
 	stAfter := len(job.Steps)
 	job.Steps = append(job.Steps, kjob.Step{Op: "allstatus"})
@@ -165,6 +183,10 @@ func checkC11(raw json.RawMessage) (ev.Result, error) {
 	case "seccomp-enosys":
 		if oe := rr.Find(stOwn, "outer-enosys"); len(oe) != 1 || oe[0].Err != "" {
 			return ev.Result{}, ev.Inconclusivef("could not install the ENOSYS-answering filter")
+		}
+	case "seccomp-einval-log":
+		if oe := rr.Find(stOwn, "outer-einval-log"); len(oe) != 1 || oe[0].Err != "" {
+			return ev.Result{}, ev.Inconclusivef("could not install the filter that refuses the log flag")
 		}
 	}
 	if len(le) != 1 || len(ce) != 1 || len(before) != 1 || len(after) != 1 {
@@ -218,6 +240,26 @@ func checkC11(raw json.RawMessage) (ev.Result, error) {
 			if old, ok := bef[s.Tid]; ok && old != s.Filters {
 				return res, fmt.Errorf("LoadFilter failed (%s), but Seccomp_filters of thread %d went %d -> %d (%s)", ld.Err, s.Tid, old, s.Filters, desc)
 			}
+		}
+	} else if c.NNP && c.Own == "seccomp-einval-log" {
+		for k, cap := range fc {
+			if cap.NNP != 1 {
+				return res, fmt.Errorf("no_new_privs was requested; installation attempt %d of %d (flags %#x) is made by thread %d, which does not have the bit at that moment (the kernel refuses the log flag with EINVAL; LoadFilter returned nil: %v, %q; %s)",
+					k+1, len(fc), cap.Flags, cap.Tid, ld.Nil, ld.Err, desc)
+			}
+		}
+		if !ld.Nil && !strings.Contains(ld.Err, "invalid argument") {
+			return res, fmt.Errorf("no_new_privs was requested and the kernel refuses only the log flag (EINVAL), but LoadFilter failed with %q (%s)", ld.Err, desc)
+		}
+		if ld.Nil {
+			for _, s := range after[0].Status {
+				if s.Filters >= 2 && s.NNP != 1 {
+					return res, fmt.Errorf("no_new_privs was requested and LoadFilter returned nil, but thread %d carries the new filter without the bit (%s)", s.Tid, desc)
+				}
+			}
+			res.Classes = append(res.Classes, "log-flag-refused:loaded-all-the-same")
+		} else {
+			res.Classes = append(res.Classes, "log-flag-refused:load-failed-with-EINVAL")
 		}
 	} else if c.NNP && c.Own == "seccomp-enosys" && !ld.Nil {
 		// seccomp(2) is not available: the load cannot succeed; the bit may have been set on the way (it was requested)
@@ -279,7 +321,7 @@ func checkC11(raw json.RawMessage) (ev.Result, error) {
 				}
 			}
 			res.Classes = append(res.Classes, "unprivileged-load-refused")
-		} else if !ld.Nil && c.Own != "seccomp-enosys" {
+		} else if !ld.Nil && c.Own != "seccomp-enosys" && !(c.Own == "seccomp-einval-log" && strings.Contains(ld.Err, "invalid argument")) {
 			return res, fmt.Errorf("privileged load without no_new_privs failed: %s", ld.Err)
 		}
 	}
@@ -327,4 +369,31 @@ func TestC11NoNewPrivs(t *testing.T) {
 	}
 	ev.Count("C11", "perturbed-cases", c11Stats.perturbed)
 	ev.Count("C11", "perturbed-cases-with-migrating-control", c11Stats.migrated)
+}
+
+// c11LongPolicy: a valid policy of a few thousand instructions (allow everything; errno only for calls whose sixth
+// argument has one of a few improbable values), so that compiling it takes a while.
+var c11LongPolicyCache *spec.Policy
+
+func c11LongPolicy() spec.Policy {
+	if c11LongPolicyCache != nil {
+		return *c11LongPolicyCache
+	}
+	p := spec.Policy{Arch: "x86_64", Default: actAllow, Groups: []spec.Group{{Action: actErrno}}}
+	names := gen.Universe("x86_64")
+	for i := 0; i < len(names) && i < 400; i++ {
+		ce := spec.CondEntry{Name: names[i]}
+		for k := 0; k < 4; k++ {
+			ce.Conds = append(ce.Conds, spec.Cond{Arg: 5, Op: "Equal", Val: 0xdeadbeef00000000 + uint64(i)<<8 + uint64(k)})
+		}
+		try := p
+		try.Groups = []spec.Group{{Action: actErrno, Conds: append(append([]spec.CondEntry(nil), p.Groups[0].Conds...), ce)}}
+		cp, err, pan := compilePolicy(&try)
+		if err != nil || pan != nil || len(cp.raw) > 3600 {
+			break
+		}
+		p = try
+	}
+	c11LongPolicyCache = &p
+	return p
 }
